@@ -73,13 +73,19 @@ func (e *kvElection) heartbeatLoop(ctx context.Context) {
 			// holds the follower-side view of somebody else's record, and
 			// refreshing "with the current revision" would overwrite the new
 			// leader's record with our old identity.
-			if !e.IsLeader() {
+			// Claim, revision and token are read in one step: a demotion followed
+			// by the watcher recording the successor's revision, squeezed between
+			// a leadership check and a later load of e.revision, would have the
+			// same effect.
+			e.mu.RLock()
+			leading := e.isLeader.Load()
+			currentRev := e.revision.Load()
+			token := e.Token()
+			e.mu.RUnlock()
+			if !leading {
 				return
 			}
 
-			currentRev := e.revision.Load()
-
-			token := e.Token()
 			payload := leadershipPayload{
 				ID:       e.cfg.InstanceID,
 				Token:    token,
